@@ -128,6 +128,7 @@ struct Engine {
 	int honest_successes = 0, honest_queries = 0;
 	// reader battery (C06 tier A / A', C04 downstream asserts)
 	bool reload_active = false, in_battery = false;
+	std::map<std::pair<int, int>, std::pair<int, int>> cb_ev; // (record id, source) -> ('added', 'removed') callbacks since the last query
 	bool reload_cr = false; // the reload window was opened by a Cache Reset (stays open across NO_INCR_UPDATE_AVAIL -> RESET -> SYNC)
 	std::vector<std::string> seq_pfx, seq_spki;
 	pthread_t fsm_thread;
@@ -386,6 +387,7 @@ static void pfx_cb(struct pfx_table *t, const struct pfx_record rec, const bool 
 	int src = rec.socket == &E->sock ? 0 : rec.socket == &E->other ? 1 : -1;
 	if (id < 0 || src < 0) { if (!E->weak && !E->mirror_bad) { E->mirror_bad = true; E->mirror_msg = "prefix callback for a record nobody announced"; } return; }
 	if (E->reload_active && E->lock_depth == 0 && E->have_fsm_thread && pthread_equal(pthread_self(), E->fsm_thread)) sample_battery(); // some paths notify while holding the table lock
+	(added ? E->cb_ev[{id, src}].first : E->cb_ev[{id, src}].second)++;
 	bool ok = added ? E->pfx_mirror.insert({id, src}).second : E->pfx_mirror.erase({id, src}) == 1;
 	if (!ok && !E->mirror_bad) {
 		E->mirror_bad = true;
@@ -399,6 +401,7 @@ static void spki_cb(struct spki_table *t, const struct spki_record rec, const bo
 	int src = rec.socket == &E->sock ? 0 : rec.socket == &E->other ? 1 : -1;
 	if (id < 0 || src < 0) { if (!E->weak && !E->mirror_bad) { E->mirror_bad = true; E->mirror_msg = "router-key callback for a key nobody announced"; } return; }
 	if (E->reload_active && E->lock_depth == 0 && E->have_fsm_thread && pthread_equal(pthread_self(), E->fsm_thread)) sample_battery();
+	(added ? E->cb_ev[{id, src}].first : E->cb_ev[{id, src}].second)++;
 	bool ok = added ? E->spki_mirror.insert({id, src}).second : E->spki_mirror.erase({id, src}) == 1;
 	if (!ok && !E->mirror_bad) {
 		E->mirror_bad = true;
